@@ -95,8 +95,10 @@ pub fn post_to_real_value(a: &Argument, r: &Option<u64>) -> bool {
         FixedPointValue::I32(v) => v as i128,
         FixedPointValue::I64(v) => v as i128,
     };
-    // (c) product (double precision, truncated toward zero) non-negative, sum in 0 .. 2^63
-    if p_f >= 0.0 && p_f < 9223372036854775808.0 {
+    // (c) product (double precision, truncated toward zero) non-negative, sum in 0 .. 2^63.
+    // The product itself may be as large as 2^64 - 1 (a negative offset brings the sum back into
+    // range); from 2^64 on the sum with any 64-bit offset is >= 2^63 and nothing is claimed.
+    if p_f >= 0.0 && p_f < 18446744073709551616.0 {
         let p = p_f as u64 as i128; // exact truncation in this range
         let sum = p + off;
         if sum >= 0 && sum < (1i128 << 63) {
@@ -132,10 +134,28 @@ fn value_in_group(g: u8) -> Value {
 }
 
 fn any_argument(g: u8) -> Argument {
-    let fixed_point = if kani::any() {
+    any_argument_split(g, 0)
+}
+
+/// `part`: 0 = everything in one proof; the 64-bit value groups are split into four parts by
+/// offset width and sign of the quantization (1: I32 / q sign bit clear, 2: I32 / set,
+/// 3: I64 / clear, 4: I64 / set) and one part without fixed-point data (5); together they cover
+/// the same domain, each proof stays within minutes
+fn any_argument_split(g: u8, part: u8) -> Argument {
+    let fixed_point = if part == 5 {
+        None
+    } else if part != 0 || kani::any() {
+        let q: f32 = kani::any();
+        if part == 1 || part == 3 {
+            kani::assume(q.to_bits() >> 31 == 0);
+        }
+        if part == 2 || part == 4 {
+            kani::assume(q.to_bits() >> 31 == 1);
+        }
+        let off32: bool = if part == 0 { kani::any() } else { part <= 2 };
         Some(FixedPoint {
-            quantization: kani::any(),
-            offset: if kani::any() {
+            quantization: q,
+            offset: if off32 {
                 FixedPointValue::I32(kani::any())
             } else {
                 FixedPointValue::I64(kani::any())
@@ -170,8 +190,25 @@ macro_rules! c18_harness {
         }
     };
 }
+macro_rules! c18_split_harness {
+    ($name:ident, $g:expr, $part:expr) => {
+        #[kani::proof_for_contract(crate::dlt::Argument::to_real_value)]
+        fn $name() {
+            let a = any_argument_split($g, $part);
+            let _ = a.to_real_value();
+        }
+    };
+}
 c18_harness!(c18_contract_int8_16, 0);
 c18_harness!(c18_contract_int32, 1);
-c18_harness!(c18_contract_i64, 2);
-c18_harness!(c18_contract_u64, 3);
+c18_split_harness!(c18_contract_i64_p1, 2, 1);
+c18_split_harness!(c18_contract_i64_p2, 2, 2);
+c18_split_harness!(c18_contract_i64_p3, 2, 3);
+c18_split_harness!(c18_contract_i64_p4, 2, 4);
+c18_split_harness!(c18_contract_i64_p5, 2, 5);
+c18_split_harness!(c18_contract_u64_p1, 3, 1);
+c18_split_harness!(c18_contract_u64_p3, 3, 3);
+c18_split_harness!(c18_contract_u64_p2, 3, 2);
+c18_split_harness!(c18_contract_u64_p4, 3, 4);
+c18_split_harness!(c18_contract_u64_p5, 3, 5);
 c18_harness!(c18_contract_other, 4);
